@@ -216,6 +216,22 @@ pub fn int_into(ty: &str, neg: bool, mag: u64) -> Value {
     }
 }
 
+/// Encoder float methods on a Vec sink: the bytes written.
+pub fn encf(name: &str, bits: &[u8]) -> Value {
+    let mut e = minicbor::Encoder::new(Vec::new());
+    let r = match name {
+        #[cfg(feature = "half")]
+        "f16" => e.f16(f32::from_bits(u32::from_be_bytes([bits[0], bits[1], bits[2], bits[3]]))).map(|_| ()),
+        "f32" => e.f32(f32::from_bits(u32::from_be_bytes([bits[0], bits[1], bits[2], bits[3]]))).map(|_| ()),
+        "f64" => { let mut a = [0u8; 8]; a.copy_from_slice(bits); e.f64(f64::from_bits(u64::from_be_bytes(a))).map(|_| ()) }
+        _ => return json!({"p":"unsupported"})
+    };
+    match r {
+        Ok(()) => { let b = e.into_writer(); json!({"p":"ok","v":{"k":"enc","b":bytes(&b)},"pos":b.len()}) }
+        Err(_) => json!({"p":"err","cls":"enc","pos":0})
+    }
+}
+
 /// Dispatch: op name + input record -> observation.
 pub fn run_op(fam: &str, name: &str, input: &Value) -> Value {
     guarded(|| {
@@ -223,6 +239,8 @@ pub fn run_op(fam: &str, name: &str, input: &Value) -> Value {
         match fam {
             "acc" => acc(name, &get_bytes(&input["buf"]), input["pos"].as_u64().unwrap_or(0) as usize),
             "dec" => dec_intlike(name, &get_bytes(&input["buf"]), input["pos"].as_u64().unwrap_or(0) as usize),
+            #[cfg(feature = "alloc")]
+            "encf" => encf(name, &get_bytes(&input["bits"])),
             "int_from" => int_from(name, input["neg"].as_bool().unwrap(), get_u128(&input["mag"])),
             "int_into" => int_into(name, input["neg"].as_bool().unwrap(), get_u64(&input["mag"])),
             #[cfg(feature = "io")]
